@@ -7,6 +7,7 @@ import collections
 import concurrent.futures as cf
 import json
 import os
+import re
 import subprocess
 
 from vt import core
@@ -350,20 +351,24 @@ def check(run):
         else:
             v = compare(d["doc"], r["tree"])
         if v:
-            cur = bykind.get(v[0])
+            # fingerprint = kind of mismatch + whether a line with more than 32 apostrophe runs is involved
+            # (compute_path prunes to 32 states, styleanalyzer.py:102)
+            longq = any(len(re.findall(r"''+", ln)) > 32 for ln in d["raw"].split("\n"))
+            key = "quotes:line-with-more-than-32-quote-runs" if longq and v[0] in ("style", "dropped", "extra", "duplicated", "order") else v[0]
+            cur = bykind.get(key)
             if cur is None or len(d["raw"]) < len(cur[0]["raw"]):
-                bykind[v[0]] = (dict(d, kind=v[0]), v[1])
+                bykind[key] = (dict(d, kind=v[0]), v[1])
         elif len(run.samples) < 4 and len(d["raw"]) < 260 and len(kinds) >= 2:
             run.sample({"raw": d["raw"], "lang": d["lang"], "denoted_leaves": [[w, [list(c) for c in ch], b, i] for w, ch, b, i in G.leaves(G.strip_p(G.denote(d["doc"])))][:12]})
     run.obligation("oracle-harness-complete", missing == 0, "%d documents without a result" % missing)
     for kind in sorted(bykind):
         case, detail = bykind[kind]
-        if kind != "exception":
+        if case["kind"] != "exception":
             doc, raw = shrink(src, case)
         else:
             doc, raw = case["doc"], case["raw"]
         run.hit("c02:" + kind, "parse tree differs from the denotation (%s): %s; document: %r" % (kind, detail, raw[:400]),
-                {"doc": doc, "raw": raw, "lang": case["lang"], "kind": kind, "detail": detail})
+                {"doc": doc, "raw": raw, "lang": case["lang"], "kind": case["kind"], "detail": detail})
     run.coverage["exhaustive"] = False
     run.coverage["input_distribution"] = {"documents_containing_block_kind": dict(stats), "leaves_per_document": dict(sizes),
                                           "languages": 12}
